@@ -2,7 +2,6 @@ package main
 
 import (
 	"fmt"
-	"strconv"
 	"strings"
 
 	"golang.org/x/tools/go/ssa"
@@ -10,16 +9,6 @@ import (
 
 // ---------------------------------------------------------------------------------
 // C03.1 RETRIGGER: every freeing event is followed by a dequeue attempt before return.
-
-func (ro *Roles) reachesDequeue(f *ssa.Function) bool {
-	if f == nil {
-		return false
-	}
-	if ro.isDequeue(f) {
-		return true
-	}
-	return false
-}
 
 // alwaysDequeues: every path of f from entry to a return passes a call of a dequeue function
 // (directly, or through a callee that always does) — a wrapper counts as "re-runs the
@@ -444,46 +433,4 @@ func splitArgs(s string) []string {
 		cur += string(ch)
 	}
 	return append(out, cur)
-}
-
-func (ro *Roles) dequeueIndependentOld(r *Report, rule string) {
-	w := ro.w
-	if !ro.need(r, rule, map[string]*ssa.Function{"dequeue decision": ro.DequeueDecision, "admission function": ro.Admit}) {
-		return
-	}
-	fn := ro.DequeueDecision
-	fname := FuncName(fn)
-	res := w.EnumPaths(fn, EnumOpts{Inline: true, Opaque: w.statelessCallee})
-	r.Count("paths", len(res.Paths))
-	vars := map[string]string{"arg0.StartDelay": "jobdelay", "arg0.startTimer": "timer"}
-	prefix := FuncName(ro.Admit) + "("
-	bad := ""
-	n := 0
-	for _, jd := range []int64{0, 5} {
-		for _, timer := range []int64{0, 1} {
-			n++
-			r.Count("valuations", 1)
-			env := map[string]int64{"jobdelay": jd, "timer": timer}
-			p, why := selectPath(res.Paths, vars, env)
-			if p == nil || len(p.Ret) != 1 || !strings.HasPrefix(p.Ret[0], prefix) {
-				r.Undecided(rule, fname+": composition with the admission table", w.Pos(fn.Pos()), "the dequeue decision is not `return admission(pipeline of the job, ignore)` on job delay="+strconv.FormatInt(jd, 10)+": "+why)
-				return
-			}
-			args := splitArgs(strings.TrimSuffix(strings.TrimPrefix(p.Ret[0], prefix), ")"))
-			if len(args) != 3 || args[0] != "recv" || args[1] != "arg0.Pipeline" {
-				bad = "the admission decision is asked for " + strings.Join(args, ", ") + " instead of (runner, the job's own pipeline, ignore)"
-				continue
-			}
-			ign, err := evalAPExpr(args[2], vars, env)
-			if err != "" {
-				r.Undecided(rule, fname+": composition with the admission table", w.Pos(fn.Pos()), "cannot evaluate the ignore-delay argument "+args[2]+": "+err)
-				return
-			}
-			if timer == 0 && ign != 1 {
-				bad = fmt.Sprintf("for a queued job with no pending timer and own delay %d the ignore-delay argument is %s = false: the decision then consults the CURRENT definition's start_delay, and a reload that introduces a delay makes the admission answer Queue forever for jobs queued before it (they are stranded)", jd, args[2])
-			}
-		}
-	}
-	r.Check(bad == "", rule, fname+": composition with the admission table", w.Pos(fn.Pos()),
-		fmt.Sprintf("on all %d valuations of (job's own delay, timer pending): a head job whose timer is not pending is decided with ignoreStartDelay = true, so (by the admission table) Start ⇔ running < concurrency whatever the current definition's delay/limit/strategy", n), bad)
 }
